@@ -146,6 +146,15 @@ def _add_anonymous_aliases(structure, type_definition):
                 ir_data_utils.builder(new_alias).abbreviation.CopyFrom(
                     subfield.abbreviation
                 )
+            # The alias is what gets written to text for the enclosing structure
+            # (the anonymous field itself is skipped), so `[text_output]` on the
+            # original field has to apply to the alias.
+            for attribute in subfield.attribute:
+                if (
+                    attribute.name.text == attributes.TEXT_OUTPUT
+                    and not ir_data_utils.reader(attribute).back_end.text
+                ):
+                    new_alias.attribute.extend([ir_data_utils.copy(attribute)])
             _mark_as_synthetic(new_alias.existence_condition)
             _mark_as_synthetic(new_alias.read_transform)
             new_fields.append(new_alias)
